@@ -30,9 +30,9 @@ theorem partInv_step (f : Nat → Val) (idxs : Tid → List Nat)
   | none => simp only [Option.map_none]; exact ⟨i1, i2, i3, i4⟩
   | some i =>
     have hi : i ∈ idxs t := List.mem_of_getElem? hk
-    simp only [Option.map_some, exec, advance, access, OUT] at *
+    simp only [Option.map_some, exec, advance, access, OUT, Nat.zero_add] at *
     constructor <;>
-      (try simp only [upd, unordered, List.append_eq_nil_iff, List.map_eq_nil_iff, List.filter_eq_nil_iff]) <;>
+      (try simp only [upd, unordered, OUT, Nat.zero_add, List.append_eq_nil_iff, List.map_eq_nil_iff, List.filter_eq_nil_iff]) <;>
       grind
 
 theorem partInv_run (f : Nat → Val) (idxs : Tid → List Nat)
@@ -97,5 +97,264 @@ theorem red_at (merge : Val → Val → Val) (x : Val) :
     (reduceThread merge x)[3]? = some (.writeF ACC (fun a => merge a x)) ∧
     (reduceThread merge x)[4]? = some (.unlock M) ∧ (reduceThread merge x)[5]? = none :=
   ⟨rfl, rfl, rfl, rfl, rfl, rfl⟩
+
+theorem redInv_pc0 (merge : Val → Val → Val) (loc : Tid → Val) (N : Nat) (c : Config) (t : Tid)
+    (I : RedInv merge loc N c) (ht : t < N) (h : (c.thr t).pc = 0) :
+    RedInv merge loc N (exec (.tau) c t) := by
+  obtain ⟨i1, i2, i3, i4, i5, i6, i7, i8, i9⟩ := I
+  simp only [mergeOrder, LockOrdered, ACC, M] at *
+  simp only [exec, advance, access]
+  constructor <;> (try simp only [upd, unordered, mergeOrder, LockOrdered, ACC, M, List.filter_cons, List.map_cons, List.reverse_cons, List.map_append, List.foldl_append, List.foldl_cons, List.foldl_nil, List.mem_append, List.mem_singleton, List.mem_cons, List.append_eq_nil_iff, List.map_eq_nil_iff, List.filter_eq_nil_iff, Bool.false_eq_true, if_false, if_true, List.nodup_append, List.nodup_cons, List.nodup_nil, List.not_mem_nil]) <;> grind
+
+theorem redInv_pc1 (merge : Val → Val → Val) (loc : Tid → Val) (N : Nat) (c : Config) (t : Tid)
+    (I : RedInv merge loc N c) (ht : t < N) (h : (c.thr t).pc = 1) :
+    RedInv merge loc N (exec (.lock M) c t) := by
+  obtain ⟨i1, i2, i3, i4, i5, i6, i7, i8, i9⟩ := I
+  simp only [mergeOrder, LockOrdered, ACC, M] at *
+  simp only [exec, advance, access]
+  cases hm : c.mtx 0 with
+  | some u => simp only []; constructor <;> (try simp only [upd, unordered, mergeOrder, LockOrdered, ACC, M, List.filter_cons, List.map_cons, List.reverse_cons, List.map_append, List.foldl_append, List.foldl_cons, List.foldl_nil, List.mem_append, List.mem_singleton, List.mem_cons, List.append_eq_nil_iff, List.map_eq_nil_iff, List.filter_eq_nil_iff, Bool.false_eq_true, if_false, if_true, List.nodup_append, List.nodup_cons, List.nodup_nil, List.not_mem_nil]) <;> grind
+  | none => simp only []; constructor <;> (try simp only [upd, unordered, mergeOrder, LockOrdered, ACC, M, List.filter_cons, List.map_cons, List.reverse_cons, List.map_append, List.foldl_append, List.foldl_cons, List.foldl_nil, List.mem_append, List.mem_singleton, List.mem_cons, List.append_eq_nil_iff, List.map_eq_nil_iff, List.filter_eq_nil_iff, Bool.false_eq_true, if_false, if_true, List.nodup_append, List.nodup_cons, List.nodup_nil, List.not_mem_nil]) <;> grind
+
+theorem redInv_pc2 (merge : Val → Val → Val) (loc : Tid → Val) (N : Nat) (c : Config) (t : Tid)
+    (I : RedInv merge loc N c) (ht : t < N) (h : (c.thr t).pc = 2) :
+    RedInv merge loc N (exec (.read ACC) c t) := by
+  obtain ⟨i1, i2, i3, i4, i5, i6, i7, i8, i9⟩ := I
+  simp only [mergeOrder, LockOrdered, ACC, M] at *
+  simp only [exec, advance, access]
+  constructor <;> (try simp only [upd, unordered, mergeOrder, LockOrdered, ACC, M, List.filter_cons, List.map_cons, List.reverse_cons, List.map_append, List.foldl_append, List.foldl_cons, List.foldl_nil, List.mem_append, List.mem_singleton, List.mem_cons, List.append_eq_nil_iff, List.map_eq_nil_iff, List.filter_eq_nil_iff, Bool.false_eq_true, if_false, if_true, List.nodup_append, List.nodup_cons, List.nodup_nil, List.not_mem_nil]) <;> grind
+
+theorem redInv_pc3 (merge : Val → Val → Val) (loc : Tid → Val) (N : Nat) (c : Config) (t : Tid)
+    (I : RedInv merge loc N c) (ht : t < N) (h : (c.thr t).pc = 3) :
+    RedInv merge loc N (exec (.writeF ACC (fun a => merge a (loc t))) c t) := by
+  obtain ⟨i1, i2, i3, i4, i5, i6, i7, i8, i9⟩ := I
+  simp only [mergeOrder, LockOrdered, ACC, M] at *
+  simp only [exec, advance, access]
+  constructor <;> (try simp only [upd, unordered, mergeOrder, LockOrdered, ACC, M, List.filter_cons, List.map_cons, List.reverse_cons, List.map_append, List.foldl_append, List.foldl_cons, List.foldl_nil, List.mem_append, List.mem_singleton, List.mem_cons, List.append_eq_nil_iff, List.map_eq_nil_iff, List.filter_eq_nil_iff, Bool.false_eq_true, if_false, if_true, List.nodup_append, List.nodup_cons, List.nodup_nil, List.not_mem_nil]) <;> grind
+
+theorem redInv_pc4 (merge : Val → Val → Val) (loc : Tid → Val) (N : Nat) (c : Config) (t : Tid)
+    (I : RedInv merge loc N c) (ht : t < N) (h : (c.thr t).pc = 4) :
+    RedInv merge loc N (exec (.unlock M) c t) := by
+  obtain ⟨i1, i2, i3, i4, i5, i6, i7, i8, i9⟩ := I
+  simp only [mergeOrder, LockOrdered, ACC, M] at *
+  simp only [exec, advance, access]
+  constructor <;> (try simp only [upd, unordered, mergeOrder, LockOrdered, ACC, M, List.filter_cons, List.map_cons, List.reverse_cons, List.map_append, List.foldl_append, List.foldl_cons, List.foldl_nil, List.mem_append, List.mem_singleton, List.mem_cons, List.append_eq_nil_iff, List.map_eq_nil_iff, List.filter_eq_nil_iff, Bool.false_eq_true, if_false, if_true, List.nodup_append, List.nodup_cons, List.nodup_nil, List.not_mem_nil]) <;> grind
+
+theorem redInv_step (merge : Val → Val → Val) (loc : Tid → Val) (N : Nat) (c : Config) (t : Tid)
+    (I : RedInv merge loc N c) : RedInv merge loc N (step (reduceProgN merge loc N) c t) := by
+  by_cases ht : t < N
+  · have hp := I.pcle t
+    obtain ⟨a0, a1, a2, a3, a4, a5⟩ := red_at merge (loc t)
+    obtain h|h|h|h|h|h : (c.thr t).pc = 0 ∨ (c.thr t).pc = 1 ∨ (c.thr t).pc = 2 ∨ (c.thr t).pc = 3 ∨
+        (c.thr t).pc = 4 ∨ (c.thr t).pc = 5 := by omega
+    · simp only [step, reduceProgN, ht, if_true, h, a0]; exact redInv_pc0 merge loc N c t I ht h
+    · simp only [step, reduceProgN, ht, if_true, h, a1]; exact redInv_pc1 merge loc N c t I ht h
+    · simp only [step, reduceProgN, ht, if_true, h, a2]; exact redInv_pc2 merge loc N c t I ht h
+    · simp only [step, reduceProgN, ht, if_true, h, a3]; exact redInv_pc3 merge loc N c t I ht h
+    · simp only [step, reduceProgN, ht, if_true, h, a4]; exact redInv_pc4 merge loc N c t I ht h
+    · simp only [step, reduceProgN, ht, if_true, h, a5]; exact I
+  · simp only [step, reduceProgN, ht, if_false, List.getElem?_nil]; exact I
+
+theorem redInv_run (merge : Val → Val → Val) (loc : Tid → Val) (N : Nat) (c : Config) (sched : Schedule)
+    (I : RedInv merge loc N c) : RedInv merge loc N (run (reduceProgN merge loc N) c sched) := by
+  induction sched generalizing c with
+  | nil => exact I
+  | cons t s ih => exact ih _ (redInv_step merge loc N c t I)
+
+theorem red_done_iff (merge : Val → Val → Val) (loc : Tid → Val) (N : Nat) (c : Config) (t : Tid) (ht : t < N) :
+    done (reduceProgN merge loc N) c t = true ↔ 5 ≤ (c.thr t).pc := by
+  simp [done, reduceProgN, ht, reduceThread]
+
+/-- When all `N` workers are done the merge order is a permutation of `0 … N-1`. -/
+theorem RedInv.order_perm {merge : Val → Val → Val} {loc : Tid → Val} {N : Nat} {c : Config}
+    (I : RedInv merge loc N c) (hdone : ∀ t, t < N → 5 ≤ (c.thr t).pc) :
+    (mergeOrder c).Perm (List.range N) := by
+  rw [List.perm_ext_iff_of_nodup I.nodup List.nodup_range]
+  intro t
+  rw [I.mem_order, List.mem_range]
+  constructor
+  · intro h
+    by_contra hn
+    have := I.idle t (by omega)
+    omega
+  · intro h
+    have := hdone t h
+    omega
+
+/-- A fold with a commutative, associative merge does not depend on the order. -/
+theorem foldl_perm_comm_assoc (merge : Val → Val → Val)
+    (hc : ∀ a b, merge a b = merge b a) (ha : ∀ a b c, merge (merge a b) c = merge a (merge b c))
+    {l₁ l₂ : List Val} (h : l₁.Perm l₂) (z : Val) : l₁.foldl merge z = l₂.foldl merge z := by
+  haveI : RightCommutative merge := ⟨fun a b c => by rw [ha, hc b c, ← ha]⟩
+  exact h.foldl_eq z
+
+/-! ## Channel hand-out of indices (`mapCoordinates`) -/
+
+structure ChanInv (n : Nat) (g : Val → Val) (c : Config) : Prop where
+  pcle : ∀ t, (c.thr t).pc ≤ 1
+  deliv : c.log.map (·.2) ++ (c.chan CH).map (·.1) = List.range n
+  own : ∀ a ∈ c.hist, ∃ v ∈ c.log.map (·.2), a.loc = OUT + v
+  val : ∀ v ∈ c.log.map (·.2), c.mem (OUT + v) = g v
+  drained : ∀ t, (c.thr t).pc ≠ 0 → c.chan CH = []
+  norace : c.races = []
+
+theorem chanInv_init (n : Nat) (g : Val → Val) : ChanInv n g (chanInit n) := by
+  constructor <;> simp [chanInit, Config.init, TState.init, upd, List.map_map, Function.comp_def]
+
+theorem chanInv_step (n : Nat) (g : Val → Val) (c : Config) (t : Tid) (I : ChanInv n g c) :
+    ChanInv n g (step (chanProg g) c t) := by
+  have hp := I.pcle t
+  obtain ⟨i1, i2, i3, i4, i5, i6⟩ := I
+  obtain h | h : (c.thr t).pc = 0 ∨ (c.thr t).pc = 1 := by omega
+  · simp only [step, chanProg, chanWorker, h, List.getElem?_cons_zero, exec]
+    cases hc : c.chan CH with
+    | nil =>
+      simp only [advance]
+      constructor <;> (try simp only [upd]) <;> grind
+    | cons m rest =>
+      obtain ⟨v, sn⟩ := m
+      have hnd : (c.log.map (·.2) ++ (c.chan CH).map (·.1)).Nodup := i2 ▸ List.nodup_range
+      rw [hc] at hnd i2
+      simp only [List.map_cons] at hnd i2
+      have hv : v ∉ c.log.map (·.2) := by
+        intro hm
+        exact (List.nodup_append.1 hnd).2.2 v hm v List.mem_cons_self rfl
+      simp only [advance, access, OUT, Nat.zero_add, CH] at *
+      constructor <;>
+        (try simp only [upd, unordered, OUT, CH, Nat.zero_add, List.map_append, List.map_cons, List.map_nil,
+          List.mem_append, List.mem_singleton, List.mem_cons, List.append_assoc, List.singleton_append,
+          List.append_eq_nil_iff, List.map_eq_nil_iff, List.filter_eq_nil_iff]) <;>
+        grind
+  · simp only [step, chanProg, chanWorker, h]
+    exact ⟨i1, i2, i3, i4, i5, i6⟩
+
+theorem chanInv_run (n : Nat) (g : Val → Val) (c : Config) (sched : Schedule) (I : ChanInv n g c) :
+    ChanInv n g (run (chanProg g) c sched) := by
+  induction sched generalizing c with
+  | nil => exact I
+  | cons t s ih => exact ih _ (chanInv_step n g c t I)
+
+/-! ## `HeightMap.updateAt` under a mutex -/
+
+def updProgN (hs : Tid → Val) (N : Nat) : Program := fun t => if t < N then updateAtLocked (hs t) else []
+
+/-- The largest proposed height (0 = the cell's initial value). -/
+def maxHeights (hs : Tid → Val) (N : Nat) : Val := (List.range N).foldl (fun a t => max a (hs t)) 0
+
+structure UpdInv (hs : Tid → Val) (N : Nat) (c : Config) : Prop where
+  pcle : ∀ t, (c.thr t).pc ≤ 4
+  idle : ∀ t, N ≤ t → (c.thr t).pc = 0 ∧ (c.thr t).flag = false
+  mtx_iff : ∀ t, c.mtx M = some t ↔ (1 ≤ (c.thr t).pc ∧ (c.thr t).pc ≤ 3)
+  out2 : ∀ t, (c.thr t).pc = 2 → (c.thr t).out = c.mem CELL
+  ub : ∀ t, 3 ≤ (c.thr t).pc → hs t ≤ c.mem CELL
+  att : c.mem CELL = 0 ∨ ∃ t, t < N ∧ c.mem CELL = hs t
+  flag_pc : ∀ t, (c.thr t).flag = true → 3 ≤ (c.thr t).pc
+  flag_nz : ∀ t, (c.thr t).flag = true → c.mem CELL ≠ 0
+  nz_flag : c.mem CELL ≠ 0 → ∃ t, t < N ∧ (c.thr t).flag = true
+  ordered : LockOrdered c
+  norace : c.races = []
+
+theorem updInv_init (hs : Tid → Val) (N : Nat) : UpdInv hs N Config.init := by
+  constructor <;> simp [Config.init, TState.init, LockOrdered]
+
+theorem upd_at (h : Val) :
+    (updateAtLocked h)[0]? = some (.lock M) ∧ (updateAtLocked h)[1]? = some (.read CELL) ∧
+    (updateAtLocked h)[2]? = some (.writeIfLess CELL h) ∧ (updateAtLocked h)[3]? = some (.unlock M) ∧
+    (updateAtLocked h)[4]? = none := ⟨rfl, rfl, rfl, rfl, rfl⟩
+
+theorem updInv_pc0 (hs : Tid → Val) (N : Nat) (c : Config) (t : Tid)
+    (I : UpdInv hs N c) (ht : t < N) (h : (c.thr t).pc = 0) :
+    UpdInv hs N (exec (.lock M) c t) := by
+  obtain ⟨i1, i2, i3, i4, i5, i6, i7, i8, i9, i10, i11⟩ := I
+  simp only [LockOrdered, CELL, M] at *
+  simp only [exec, advance, access]
+  cases hm : c.mtx 0 with
+  | some u => simp only []; constructor <;> (try simp only [upd, unordered, LockOrdered, CELL, M, List.mem_cons, List.append_eq_nil_iff, List.map_eq_nil_iff, List.filter_eq_nil_iff]) <;> grind
+  | none => simp only []; constructor <;> (try simp only [upd, unordered, LockOrdered, CELL, M, List.mem_cons, List.append_eq_nil_iff, List.map_eq_nil_iff, List.filter_eq_nil_iff]) <;> grind
+
+theorem updInv_pc1 (hs : Tid → Val) (N : Nat) (c : Config) (t : Tid)
+    (I : UpdInv hs N c) (ht : t < N) (h : (c.thr t).pc = 1) :
+    UpdInv hs N (exec (.read CELL) c t) := by
+  obtain ⟨i1, i2, i3, i4, i5, i6, i7, i8, i9, i10, i11⟩ := I
+  simp only [LockOrdered, CELL, M] at *
+  simp only [exec, advance, access]
+  constructor <;> (try simp only [upd, unordered, LockOrdered, CELL, M, List.mem_cons, List.append_eq_nil_iff, List.map_eq_nil_iff, List.filter_eq_nil_iff]) <;> grind
+
+theorem updInv_pc2 (hs : Tid → Val) (N : Nat) (c : Config) (t : Tid)
+    (I : UpdInv hs N c) (ht : t < N) (h : (c.thr t).pc = 2) :
+    UpdInv hs N (exec (.writeIfLess CELL (hs t)) c t) := by
+  obtain ⟨i1, i2, i3, i4, i5, i6, i7, i8, i9, i10, i11⟩ := I
+  simp only [LockOrdered, CELL, M] at *
+  simp only [exec, advance, access]
+  by_cases hlt : (c.thr t).out < hs t
+  · simp only [hlt, if_true]; constructor <;> (try simp only [upd, unordered, LockOrdered, CELL, M, List.mem_cons, List.append_eq_nil_iff, List.map_eq_nil_iff, List.filter_eq_nil_iff]) <;> grind
+  · simp only [hlt, if_false]; constructor <;> (try simp only [upd, unordered, LockOrdered, CELL, M, List.mem_cons, List.append_eq_nil_iff, List.map_eq_nil_iff, List.filter_eq_nil_iff]) <;> grind
+
+theorem updInv_pc3 (hs : Tid → Val) (N : Nat) (c : Config) (t : Tid)
+    (I : UpdInv hs N c) (ht : t < N) (h : (c.thr t).pc = 3) :
+    UpdInv hs N (exec (.unlock M) c t) := by
+  obtain ⟨i1, i2, i3, i4, i5, i6, i7, i8, i9, i10, i11⟩ := I
+  simp only [LockOrdered, CELL, M] at *
+  simp only [exec, advance, access]
+  constructor <;> (try simp only [upd, unordered, LockOrdered, CELL, M, List.mem_cons, List.append_eq_nil_iff, List.map_eq_nil_iff, List.filter_eq_nil_iff]) <;> grind
+
+theorem updInv_step (hs : Tid → Val) (N : Nat) (c : Config) (t : Tid)
+    (I : UpdInv hs N c) : UpdInv hs N (step (updProgN hs N) c t) := by
+  by_cases ht : t < N
+  · have hp := I.pcle t
+    obtain ⟨a0, a1, a2, a3, a4⟩ := upd_at (hs t)
+    obtain h|h|h|h|h : (c.thr t).pc = 0 ∨ (c.thr t).pc = 1 ∨ (c.thr t).pc = 2 ∨ (c.thr t).pc = 3 ∨
+        (c.thr t).pc = 4 := by omega
+    · simp only [step, updProgN, ht, if_true, h, a0]; exact updInv_pc0 hs N c t I ht h
+    · simp only [step, updProgN, ht, if_true, h, a1]; exact updInv_pc1 hs N c t I ht h
+    · simp only [step, updProgN, ht, if_true, h, a2]; exact updInv_pc2 hs N c t I ht h
+    · simp only [step, updProgN, ht, if_true, h, a3]; exact updInv_pc3 hs N c t I ht h
+    · simp only [step, updProgN, ht, if_true, h, a4]; exact I
+  · simp only [step, updProgN, ht, if_false, List.getElem?_nil]; exact I
+
+theorem updInv_run (hs : Tid → Val) (N : Nat) (c : Config) (sched : Schedule)
+    (I : UpdInv hs N c) : UpdInv hs N (run (updProgN hs N) c sched) := by
+  induction sched generalizing c with
+  | nil => exact I
+  | cons t s ih => exact ih _ (updInv_step hs N c t I)
+
+theorem upd_done_iff (hs : Tid → Val) (N : Nat) (c : Config) (t : Tid) (ht : t < N) :
+    done (updProgN hs N) c t = true ↔ 4 ≤ (c.thr t).pc := by
+  simp [done, updProgN, ht, updateAtLocked]
+
+theorem maxHeights_succ (hs : Tid → Val) (N : Nat) : maxHeights hs (N + 1) = max (maxHeights hs N) (hs N) := by
+  simp [maxHeights, List.range_succ, List.foldl_append]
+
+theorem maxHeights_spec (hs : Tid → Val) (N : Nat) :
+    (∀ t, t < N → hs t ≤ maxHeights hs N) ∧ (maxHeights hs N = 0 ∨ ∃ t, t < N ∧ maxHeights hs N = hs t) := by
+  induction N with
+  | zero => simp [maxHeights]
+  | succ n ih =>
+    rw [maxHeights_succ]
+    obtain ⟨h1, h2⟩ := ih
+    constructor
+    · intro t ht
+      by_cases h : t = n
+      · subst h; exact Nat.le_max_right _ _
+      · exact Nat.le_trans (h1 t (by omega)) (Nat.le_max_left _ _)
+    · by_cases hle : hs n ≤ maxHeights hs n
+      · rw [Nat.max_eq_left hle]
+        rcases h2 with h2 | ⟨t, ht, he⟩
+        · exact Or.inl h2
+        · exact Or.inr ⟨t, by omega, he⟩
+      · rw [Nat.max_eq_right (Nat.le_of_lt (Nat.lt_of_not_le hle))]
+        exact Or.inr ⟨n, by omega, rfl⟩
+
+/-- An attained upper bound is the maximum. -/
+theorem eq_maxHeights (hs : Tid → Val) (N : Nat) (x : Val) (hub : ∀ t, t < N → hs t ≤ x)
+    (hatt : x = 0 ∨ ∃ t, t < N ∧ x = hs t) : x = maxHeights hs N := by
+  obtain ⟨m1, m2⟩ := maxHeights_spec hs N
+  apply Nat.le_antisymm
+  · rcases hatt with h | ⟨t, ht, he⟩
+    · rw [h]; exact Nat.zero_le _
+    · rw [he]; exact m1 t ht
+  · rcases m2 with h | ⟨t, ht, he⟩
+    · rw [h]; exact Nat.zero_le _
+    · rw [he]; exact hub t ht
 
 end M3d.Conc
